@@ -385,8 +385,12 @@ pub fn quote(l: &str) -> String {
 // ------------------------------------------------------------------------------------------
 // layout
 
-pub const WS_AFTER_DOT: &[&str] = &["", "", " ", "\n", "\t", "\r\n", "  \n ", "\n\n"];
-pub const WS_COMMA: &[&str] = &["", "", "", " ", "\n", "\t", "  "];
+// entries 0..7 are what ordinary layouts draw from (tape values 0..7); the long runs behind them are only reached by
+// the tapes of the "big text" parts (values 8, 9)
+pub const WS_AFTER_DOT: &[&str] = &["", "", " ", "\n", "\t", "\r\n", "  \n ", "\n\n", LONG_BLANKS, LONG_NEWLINES];
+pub const WS_COMMA: &[&str] = &["", "", "", " ", "\n", "\t", "  ", "", LONG_BLANKS, LONG_NEWLINES];
+pub const LONG_BLANKS: &str = "                                                                                                                                                                                                                                                                                                                                                                                                                                                                                                                                ";
+pub const LONG_NEWLINES: &str = "\n\n\n\n\n\n\n\n\n\n\n\n\n\n\n\n\n\n\n\n\n\n\n\n\n\n\n\n\n\n\n\n\n\n\n\n\n\n\n\n\r\n\t\n\n\n\n\n\n\n\n\n\n\n\n\n\n\n\n\n\n\n\n\n\n\n\n\n\n\n\n\n\n\n\n\n\n\n\n\n\n\n\n\n\n\n\n\n";
 
 #[derive(Clone, Debug, Serialize, Deserialize, PartialEq, Eq, Hash)]
 pub struct Layout {
@@ -498,10 +502,40 @@ pub fn adf_case(adfs: BoxedStrategy<Vec<F>>, class: LabelClass) -> BoxedStrategy
         let n = acs.len();
         (Just(acs), labels(n, class), layout(n))
     })
-    .prop_map(|(acs, labels, layout)| AdfCase {
-        acs,
-        labels,
-        layout,
+    .prop_map(|(mut acs, labels, layout)| {
+        // label sets in which two different pairs of labels read the same when written next to each other
+        // ("a,b" + c  vs  a + "b,c"): half of these cases get two conditions built from exactly such pairs
+        let n = acs.len();
+        let h = layout.keys.iter().fold(n as u64, |a, k| a.wrapping_mul(31).wrapping_add(*k as u64));
+        if (4..=9).contains(&n) && h % 2 == 0 {
+            let mut found = None;
+            'search: for i1 in 0..n {
+                for j1 in 0..n {
+                    for i2 in 0..n {
+                        for j2 in 0..n {
+                            if (i1, j1) != (i2, j2) && i1 != j1 && i2 != j2 && format!("{},{}", labels[i1], labels[j1]) == format!("{},{}", labels[i2], labels[j2]) {
+                                found = Some((i1, j1, i2, j2));
+                                break 'search;
+                            }
+                        }
+                    }
+                }
+            }
+            if let Some((i1, j1, i2, j2)) = found {
+                let k1 = (h / 2) as usize % n;
+                let k2 = (k1 + 1 + (h / 64) as usize % (n - 1)) % n;
+                let op = |x: F, y: F| match (h / 1024) % 5 {
+                    0 => F::and(x, y),
+                    1 => F::or(x, y),
+                    2 => F::imp(x, y),
+                    3 => F::iff(x, y),
+                    _ => F::xor(x, y),
+                };
+                acs[k1] = op(F::Atom(i1), F::Atom(j1));
+                acs[k2] = op(F::Atom(i2), F::Atom(j2));
+            }
+        }
+        AdfCase { acs, labels, layout }
     })
     .boxed()
 }
